@@ -4,7 +4,7 @@ from .lib.match import *
 from .lib.dlist import evaluate, fold
 from .lib.facts import VERIF, AnalysisBroken
 
-SELECT = r'^bluetoe::(pairing_no_output|pairing_numeric_output)::|^bluetoe::details::(io_capabilities_matrix|security_manager_base)::'
+SELECT = r'^bluetoe::(pairing_no_output|pairing_numeric_output)::|^bluetoe::details::(io_capabilities_matrix|security_manager_base|security_manager_impl)::'
 UNITS = lambda u: u in ('w_inst_sm',) or u.startswith('t_security_manager')
 META = {
     'level': 'table extraction: the decision lists select_legacy_pairing_algorithm / select_lesc_pairing_algorithm / get_io_capabilities of the two output-capability classes '
@@ -20,6 +20,10 @@ def run(chk, facts, tier):
     chk.rule('legacy-method-table', 'select_legacy_pairing_algorithm equals Table 2.8 (legacy column) for all local IO configurations x remote IO capabilities', floor=30)
     chk.rule('lesc-method-table', 'select_lesc_pairing_algorithm equals Table 2.8 (LE Secure Connections column) for all local IO configurations x remote IO capabilities', floor=30)
     chk.rule('oob-preferred', 'legacy: OOB when both sides have OOB data; LESC: OOB when either side has OOB data; otherwise the IO table is consulted with the remote io_capability', floor=2)
+    chk.rule('oob-queried-before-selection', 'every pairing request handler asks the application for the OOB data of the requesting device (request_oob_data_presents_for_remote_device(state.remote_address())) '
+             'on every path before has_oob_data_for_remote_device() feeds the method selection or the pairing response', floor=3)
+    chk.rule('advertised-oob-is-selection-input', 'the OOB flag written to the Pairing Response is the predicate the selection uses (has_oob_data_for_remote_device()): the central selects from the advertised flags, '
+             'so a response built from capabilities with a different OOB flag makes both sides select different methods', floor=3)
     chk.rule('mitm-considered', 'the pairing method selection reads the authentication requirements (MITM bit): without MITM on both sides Just Works must be selected', floor=2)
     spec = json.load(open(os.path.join(VERIF, 'spec', 'io_mapping.json')))
     io_enum = facts.enum('bluetoe::details::io_capabilities')
@@ -74,6 +78,54 @@ def run(chk, facts, tier):
             rule = 'legacy-method-table' if 'legacy' in fname else 'lesc-method-table'
             chk.instance(rule, fn, 'io_capabilities_matrix::%s forwards the remote capability' % fname, ok, '' if ok else 'matrix does not forward its argument', key='matrix ' + fname + str(len(fn.params[0]['t'])))
 
+    # the local OOB predicate: looked up per request, and advertised as used
+    handlers = []
+    for q in ('bluetoe::details::security_manager_base::legacy_handle_pairing_request', 'bluetoe::details::security_manager_base::lesc_handle_pairing_request',
+              'bluetoe::details::security_manager_impl::handle_pairing_request'):
+        fs = [f for f in facts.fns(q) if f.kind == 'pattern']
+        chk.require(len(fs) == 1, q + ': pattern not found')
+        handlers += fs
+    caps_flag = {}
+    for nm in ('legacy_local_io_caps', 'lesc_local_io_caps'):
+        for fn in [f for f in facts.fns('bluetoe::details::security_manager_base::' + nm) if f.kind == 'pattern']:
+            r = fn.returns()
+            il = [x for x in ret_value(r[0]).walk() if x.k == 'InitListExpr' and len(x.c) == 3] if len(r) == 1 and ret_value(r[0]) is not None else []
+            chk.require(bool(il), nm + ': return {{ io, oob, auth }} not recognised')
+            if il:
+                e = strip_casts(il[0].c[1])
+                caps_flag[nm] = 'has_oob' if (e.k == 'ConditionalOperator' and strip_casts(e.c[0]).is_call('has_oob_data_for_remote_device') and cval(e.c[1]) == 1 and cval(e.c[2]) == 0) else ('const %s' % e.v if e.v is not None else e.text()[:30])
+    for fn in handlers:
+        reqs = fn.body.calls('request_oob_data_presents_for_remote_device')
+        uses = fn.body.calls('has_oob_data_for_remote_device') + [c for c in fn.body.calls() if c.cn in ('legacy_local_io_caps', 'lesc_local_io_caps')]
+        req_ok = [c for c in reqs if len(c.args()) == 1 and strip_casts(c.args()[0]).is_call('remote_address') and is_name(base_object(strip_casts(c.args()[0])), fn.params[-1]['n'])]
+        bad = [u for u in uses if not any(precedes(fn, r, u) for r in req_ok)]
+        short = fn.q.split('::')[-2] + '::' + fn.name
+        chk.instance('oob-queried-before-selection', fn, '%s: %d use(s) of the local OOB predicate, %d lookup(s)' % (short, len(uses), len(req_ok)), not bad and bool(uses),
+                     '' if not bad and uses else 'has_oob_data_for_remote_device() is consulted at line %d without a preceding lookup for the requesting device: the answer is the one for the last device that was looked up (or "no data" if none ever was)' % (bad[0].l if bad else 0),
+                     node=bad[0] if bad else None, key=short)
+        for c in fn.body.calls('create_pairing_response'):
+            capc = strip_casts(c.args()[-1]) if c.args() else None
+            nm = capc.cn if capc is not None and capc.d.get('call') else None
+            if capc is not None and capc.k in REF_KINDS and capc.d.get('local'):
+                # a local copy of one of the capability functions' result; the OOB element [1] must not be overwritten
+                init = local_init(fn, capc.n, optional=True)
+                touched = [st for tgt, op, val, st in stores(fn.body) if strip_casts(tgt).k in ('ArraySubscriptExpr', 'CXXOperatorCallExpr') and is_name(strip_casts(tgt).c[0 if strip_casts(tgt).k == 'ArraySubscriptExpr' else 1], capc.n)
+                           and cval(strip_casts(tgt).c[-1]) != 2]
+                nm = init.cn if init is not None and init.d.get('call') and not touched else None
+            # which selection shares the branch with this response
+            sel = [x for x in fn.body.calls() if x.cn in ('legacy_select_pairing_algorithm', 'lesc_select_pairing_algorithm') and [(g[0].i, g[1]) for g in fn.guards(x)] == [(g[0].i, g[1]) for g in fn.guards(c)]]
+            chk.require(len(sel) == 1 and nm in caps_flag, '%s: response at line %d cannot be paired with one selection call / capability function' % (short, c.l))
+            if len(sel) != 1 or nm not in caps_flag:
+                continue
+            uses_has = len(sel[0].args()) == 4 and strip_casts(sel[0].args()[3]).is_call('has_oob_data_for_remote_device')
+            if not req_ok and caps_flag[nm] == 'const 0':
+                # no lookup in this handler: the predicate keeps its constructor value (false) for this manager, which is what a constant 0 advertises; the missing lookup is reported by the other rule
+                chk.note('%s: %s() advertises OOB flag 0 and the handler never looks the OOB data up (predicate constant false): consistent, see oob-queried-before-selection' % (short, nm))
+                continue
+            ok = uses_has and caps_flag[nm] == 'has_oob'
+            chk.instance('advertised-oob-is-selection-input', fn, '%s: %s(.., has_oob_data) answered with %s() [OOB flag: %s]' % (short, sel[0].cn, nm, caps_flag[nm]), ok,
+                         '' if ok else 'the method is selected with the local OOB predicate but the Pairing Response carries OOB flag "%s": when the application has OOB data, the peripheral selects OOB while the central, reading the response, does not' % caps_flag[nm],
+                         node=c, key='%s/%s' % (short, sel[0].cn))
     # OOB preference + MITM dependence in the security manager wrappers
     SB = 'bluetoe::details::security_manager_base::'
     for fname, want in (('legacy_select_pairing_algorithm', '&&'), ('lesc_select_pairing_algorithm', '||')):
